@@ -3,7 +3,7 @@ LEMMA_MODULE = {}
 def _reg(mod, names):
     for n in names: LEMMA_MODULE[n] = mod
 _reg('blake', ['B1', 'B2', 'B3', 'B4', 'B5'])
-_reg('argon', ['G1', 'G2'])
+_reg('argon', ['G1', 'G2', 'G4'])
 _reg('aes', ['A1', 'A2', 'A3', 'A5'])
 _reg('isa', ['I1'])
 _reg('jit', ['J1'])
@@ -16,7 +16,7 @@ PROPS = {
    files=['src/blake2/blake2b.c', 'src/blake2/blake2.h', 'src/blake2/blake2-impl.h', 'src/blake2/endian.h', 'src/randomx.cpp'],
    explanation='Blake2b conformance is decomposed into lemmas over the real functions of src/blake2/blake2b.c lowered to LLVM IR on this run: B1 the compression function equals RFC 7693 F for all inputs (term-level equivalence); B2 one blake2b_update call from an arbitrary valid state equals the byte-wise RFC streaming semantics for every (buflen, inlen) inside the bound, with the compression function abstracted to an uninterpreted function (sound by B1) and an arbitrary 128-bit counter (covers totals beyond 2^32 and 2^64 carries) - because the reference is a fold over bytes, every chunking of a message gives the same state; B3 blake2b_final equals the RFC final step and writes exactly outlen bytes; B4 init/init_key build the RFC parameter block over arbitrary stale memory, invalid parameters are rejected, and the one-shot blake2b() is init;update;final with rejected calls never writing; B5 the commitment is Blake2b-256(input||hash). The composition of the lemmas into the end-to-end statement is a paper argument (DESIGN.md 6/C11).',
    trusted=['RFC 7693 transcription in spec/blake2b_ref.py (self-tested against hashlib)'], outside=['single update calls longer than the stated bound; composition of lemmas is on paper']),
- 'C10': dict(level='other', lemmas=['G1', 'G2', 'B1'],
+ 'C10': dict(level='other', lemmas=['G1', 'G2', 'G4', 'B1', 'B2', 'B3', 'B4', 'H3'],
    files=['src/dataset.cpp', 'src/argon2_core.c', 'src/argon2_ref.c', 'src/argon2_ssse3.c', 'src/argon2_avx2.c', 'src/blake2/blamka-round-ref.h', 'src/blake2/blamka-round-ssse3.h', 'src/blake2/blamka-round-avx2.h', 'src/blake2/blake2b.c'],
    explanation='TODO', trusted=['RFC 9106 transcription in spec/argon2_ref.py'], outside=[]),
  'C12': dict(level='other', lemmas=['A1', 'A2', 'A3', 'A5'],
@@ -43,7 +43,7 @@ PROPS = {
  'C16': dict(level='other', lemmas=['H7'],
    files=['src/vm_compiled.cpp', 'src/vm_compiled_light.cpp', 'src/dataset.cpp', 'src/virtual_memory.c', 'src/jit_compiler_x86.cpp', 'src/randomx.cpp'],
    explanation='TODO', trusted=[], outside=[]),
- 'C03': dict(level='other', lemmas=['H3', 'H1'],
+ 'C03': dict(level='other', lemmas=['H3', 'H1', 'H6'],
    files=['src/randomx.cpp', 'src/virtual_machine.cpp', 'src/virtual_machine.hpp', 'src/vm_compiled_light.cpp', 'src/vm_interpreted_light.cpp', 'src/vm_compiled.cpp', 'src/dataset.hpp', 'src/aes_hash.cpp'],
    explanation='TODO', trusted=[], outside=[]),
 }
